@@ -331,6 +331,29 @@ fn random_f64(r: &mut Rng) -> f64 {
         _ => f64::from((r.next() as u32 as f32) / (1u32 << r.below(31)) as f32),            // exactly representable in f32
     }
 }
+/// a decimal numeral at, just above or just below the midpoint of two adjacent values of the datatype's value
+/// space (f32 for xsd:float, f64 otherwise): rounding it in two steps, or from a truncated prefix, gives the wrong neighbour
+fn midpoint_lex(r: &mut Rng, float32: bool) -> String {
+    let digits = if float32 {
+        let e = r.range(127 - 40, 127 + 60) as u32; let x = f32::from_bits((e << 23) | (r.next() as u32 & 0x007f_ffff)); let y = f32::from_bits(x.to_bits() + 1);
+        let m = (f64::from(x) + f64::from(y)) / 2.0; // exact: both have 24-bit significands
+        let s = format!("{m:.120}"); s.trim_end_matches('0').to_string() + if s.trim_end_matches('0').ends_with('.') { "0" } else { "" }
+    } else {
+        let k = r.range(1, 40) as u32; let m = (r.next() >> 11) | (1 << 52); let x = (m as u128) << k; let mid = x + (1u128 << (k - 1));
+        format!("{mid}.0")
+    };
+    let s = match r.below(4) {
+        0 => digits,                                   // the tie itself (round half to even)
+        1 => format!("{digits}{}1", "0".repeat(r.below(30))), // just above
+        _ => { // just below: decrement the last non-zero digit and append nines
+            let mut ch: Vec<char> = digits.trim_end_matches('0').trim_end_matches('.').chars().collect();
+            let had_point = ch.contains(&'.');
+            if let Some(p) = ch.iter().rposition(|c| c.is_ascii_digit() && *c != '0') { ch[p] = char::from(ch[p] as u8 - 1); for q in p + 1..ch.len() { if ch[q] == '0' { ch[q] = '9'; } } }
+            let t: String = ch.into_iter().collect(); format!("{t}{}{}", if had_point { "" } else { "." }, "9".repeat(r.range(12, 40)))
+        }
+    };
+    if r.chance(1, 2) { format!("-{s}") } else { s }
+}
 fn random_int_lex(r: &mut Rng, dt: &str) -> String {
     let v: i128 = match r.below(4) {
         0 => *r.pick(&int_boundaries(dt)),
@@ -353,7 +376,7 @@ fn random_case(r: &mut Rng) -> Case {
         4 | 5 => Case::F64Batch((0..500).map(|_| random_f64(r)).collect()),
         6 | 7 | 8 => { let dt = *r.pick(&CONV_DTS[..16]); Case::Conv(lit_dt(&random_int_lex(r, if int_facets(&xsd(dt)).is_some() { dt } else { "integer" }), &xsd(dt))) }
         9 | 10 => { let dt = *r.pick(&["double", "float", "decimal", "double", "float", "decimal", "integer", "string"]);
-            let lex = if r.chance(1, 3) { r.pick(&FLOAT_FORMS).to_string() } else { let x = random_f64(r); let mut s = match r.below(4) { 0 => format!("{x}"), 1 => format!("{x:e}"), 2 => format!("{x:E}"), _ => format!("{:.*}", r.below(20), x) };
+            let lex = if matches!(dt, "double" | "float") && r.chance(1, 4) { midpoint_lex(r, dt == "float") } else if r.chance(1, 3) { r.pick(&FLOAT_FORMS).to_string() } else { let x = random_f64(r); let mut s = match r.below(4) { 0 => format!("{x}"), 1 => format!("{x:e}"), 2 => format!("{x:E}"), _ => format!("{:.*}", r.below(20), x) };
                 if r.chance(1, 6) { s = format!("+{s}"); } if r.chance(1, 10) { let (a, b) = *r.pick(&PADS); s = format!("{a}{s}{b}"); } if r.chance(1, 10) { s = s.replace('.', ""); } if r.chance(1, 12) { s.push_str(*r.pick(&["e", "e+", "f", "d", ".", "e1.5", "_0"])); } s };
             Case::Conv(lit_dt(&lex, &xsd(dt))) }
         _ => { let dt = *r.pick(&CONV_DTS); let lex = r.pick(&["5", "-5", "true", "false", "1", "0", "1.5", "NaN", "", "2024-01-01T00:00:00Z"]).to_string(); if r.chance(1, 4) { Case::Conv(lit_lang(&lex, "en")) } else { Case::Conv(lit_dt(&lex, &xsd(dt))) } }
